@@ -330,6 +330,7 @@ func runC20(c *Ctx) {
 	}
 	const chunk = 4096
 	perBound := map[int]int64{}
+	conformanceRuns, conformanceOK := 0, 0
 	for si, sc := range scen {
 		for bi, b := range budgets {
 			if c.Expired() {
@@ -352,6 +353,42 @@ func runC20(c *Ctx) {
 					jj := j
 					c.Violate(Witness{Fingerprint: fp, Engine: "sched", Job: &jj, What: fmt.Sprintf("[%s, no disturbance] %s", sc.name, what)}, nil)
 					continue
+				}
+			}
+			// conformance of the scheduler's operations with the real ones: the same script through
+			// the session engine of THIS binary (no scheduler attached: every wrapper is the real
+			// mutex / channel / goroutine / write / read) must give the same line and the same
+			// screen at the last wait as the undisturbed schedule
+			if bi == 0 {
+				conformanceRuns++
+				ja := harness.Job{Cfg: harness.Config{RC: sc.rc, W: sc.w, H: 12, Prompt: "$ ", NoHist: true}, Want: harness.Want{Obs: 2, Screen: 2}}
+				if len(sc.comps) > 0 {
+					cs := &harness.CompSpec{ByWord: true}
+					for _, v := range sc.comps {
+						cs.Items = append(cs.Items, harness.Comp{Value: v})
+					}
+					ja.Cfg.Comps = cs
+				}
+				if sc.multi {
+					ja.Cfg.Multiline = "backslash"
+				}
+				ja.Calls = [][]harness.Answer{Keys(sc.script...)}
+				ta := c.Pool.RunOne(&ja)
+				ca := LastCall(ta)
+				var scrA []string
+				if n := len(ca.Waits); n > 0 && ca.Waits[n-1].Screen != nil {
+					scrA = ca.Waits[n-1].Screen.Lines
+				}
+				trim := func(l []string) string {
+					for len(l) > 0 && strings.TrimSpace(l[len(l)-1]) == "" {
+						l = l[:len(l)-1]
+					}
+					return strings.Join(l, "\n")
+				}
+				if ca.Outcome != "returned" || ca.Line != base.Line || trim(scrA) != trim(base.Screen) {
+					c.HarnessError(fmt.Sprintf("%s: the scheduler-driven undisturbed run and the free-running session run differ: line %q / %q (%s), screen at the last wait %q / %q", sc.name, base.Line, ca.Line, ca.Outcome, base.Screen, scrA))
+				} else {
+					conformanceOK++
 				}
 			}
 			P := bound(si, bi)
@@ -461,5 +498,6 @@ func runC20(c *Ctx) {
 			perScenario[sc.name+" / "+b.name] = map[string]any{"bound": P, "schedules_so_far": c.Evaluations}
 		}
 	}
-	c.Extra = map[string]any{"schedules_by_total_cost": perBound, "bounds": perScenario}
+	c.Extra = map[string]any{"schedules_by_total_cost": perBound, "bounds": perScenario,
+		"scheduler_vs_free_running_conformance": fmt.Sprintf("%d of %d scripts: identical returned line and identical screen at the last wait between the undisturbed scheduled execution and the free-running session engine of the same binary", conformanceOK, conformanceRuns)}
 }
